@@ -6,16 +6,21 @@ ID=$1; NAME=$2; PROP=$3
 WT=/tmp/mut/$ID; OUT=/tmp/mut/$ID-out
 export CARGO_TARGET_DIR=$WT/target CARGO_NET_OFFLINE=true
 cd $WT || exit 1
-git stash -q -u 2>/dev/null; git checkout -q -- . ; git clean -qfd -e target 2>/dev/null
+clean() { git checkout -q -- . ; git clean -qfd -e target 2>/dev/null; }
+clean
 DEMO=$(ls $OUT/demo*.rs 2>/dev/null | head -1)
-mkdir -p tests
-if [ -n "$DEMO" ]; then cp $DEMO tests/demo.rs; DEMOARGS="--test demo"; else git apply $OUT/demo.diff || exit 1; DEMOARGS="--lib"; fi
+add_demo() { if [ -n "$DEMO" ]; then mkdir -p tests; cp $DEMO tests/demo.rs; else git apply $OUT/demo.diff || exit 1; fi; }
+if [ -n "$DEMO" ]; then DEMOARGS="--test demo"; else DEMOARGS="--lib demo"; fi
 # 1. demo passes without the change
+add_demo
 cargo test --offline $DEMOARGS > $OUT/confirm_clean.log 2>&1; CLEAN=$?
-# 2. apply change: suite passes, demo fails
+# 2. change only: existing suite passes
+clean
 git apply $OUT/patch.diff || { echo "patch does not apply"; exit 1; }
 cargo test --offline --lib > $OUT/confirm_suite.log 2>&1; SUITE=$?
 NT=$(grep -o "[0-9]* passed" $OUT/confirm_suite.log | head -1)
+# 3. change + demo: demo fails
+add_demo
 cargo test --offline $DEMOARGS > $OUT/confirm_mut.log 2>&1; MUT=$?
 echo "demo clean exit=$CLEAN (want 0); suite with change exit=$SUITE ($NT); demo with change exit=$MUT (want !=0)"
 if [ $CLEAN -eq 0 ] && [ $SUITE -eq 0 ] && [ $MUT -ne 0 ]; then
@@ -27,10 +32,10 @@ if [ $CLEAN -eq 0 ] && [ $SUITE -eq 0 ] && [ $MUT -ne 0 ]; then
 import json,sys
 d,prop,nt=sys.argv[1:4]
 json.dump({"property":prop,"confirmed":{"demo_without_change":"pass","existing_suite_with_change":"pass (%s)"%nt,"demo_with_change":"fail"},
-  "ran":["cargo test --offline --test demo (clean)","cargo test --offline --lib (with change)","cargo test --offline --test demo (with change)"],
+  "ran":["cargo test --offline <demo> (clean)","cargo test --offline --lib (change only)","cargo test --offline <demo> (change + demo)"],
   "needs":"see notes.md","detected_by":None}, open(d+"/meta.json","w"), indent=1)
 PY
   echo "stored $D"
 else
-  echo "NOT confirmed"; tail -5 $OUT/confirm_clean.log $OUT/confirm_mut.log | cut -c1-300
+  echo "NOT confirmed"
 fi
